@@ -107,13 +107,15 @@ def validate(chk, trace, out, source, tmo):
 
 def vacuity(chk, rep, what, need):
     c = rep.get("counters", {})
+    if c.get("skipped-after-10-confirmed-hang-differences", 0):
+        return      # a failing run (lane differences are being reported) that cut its silence scripts short: coverage is moot
     missing = [k for k in need if c.get(k, 0) == 0]
     if missing:
         chk.tool_error("%s: input classes that never occurred: %s" % (what, ", ".join(missing)))
-    n = c.get("scripts", 0)
+    n = c.get("scripts", 0) - rep.get("mismatch_total", 0)       # scripts on which the lanes agree
     ok = c.get("both-lanes-conform-to-model", 0)
     if "both-lanes-conform-to-model" in c or what.startswith("replay"):
-        if n == 0 or ok < 0.8 * n:
+        if c.get("scripts", 0) == 0 or ok < 0.8 * n:
             chk.tool_error("%s: only %d of %d scripts behaved as the model predicts in both lanes - the harness is not exercising what it claims"
                            % (what, ok, n))
 
